@@ -408,6 +408,52 @@ Lemma drain_h_rt (s : hstate) (k : nat) : h_rt (drain k s) = h_rt s.
 Proof. prj. Qed.
 #[export] Hint Rewrite drain_h_rt : hp.
 
+Lemma raise_panic_h_self (s : hstate) : h_self (raise_panic s) = h_self s.
+Proof. reflexivity. Qed.
+#[export] Hint Rewrite raise_panic_h_self : hp.
+Lemma raise_panic_h_n (s : hstate) : h_n (raise_panic s) = h_n s.
+Proof. reflexivity. Qed.
+#[export] Hint Rewrite raise_panic_h_n : hp.
+Lemma raise_panic_h_ssid (s : hstate) : h_ssid (raise_panic s) = h_ssid s.
+Proof. reflexivity. Qed.
+#[export] Hint Rewrite raise_panic_h_ssid : hp.
+Lemma raise_panic_h_proto (s : hstate) : h_proto (raise_panic s) = h_proto s.
+Proof. reflexivity. Qed.
+#[export] Hint Rewrite raise_panic_h_proto : hp.
+Lemma raise_panic_h_shape (s : hstate) : h_shape (raise_panic s) = h_shape s.
+Proof. reflexivity. Qed.
+#[export] Hint Rewrite raise_panic_h_shape : hp.
+Lemma raise_panic_h_cur (s : hstate) : h_cur (raise_panic s) = h_cur s.
+Proof. reflexivity. Qed.
+#[export] Hint Rewrite raise_panic_h_cur : hp.
+Lemma raise_panic_h_reached (s : hstate) : h_reached (raise_panic s) = h_reached s.
+Proof. reflexivity. Qed.
+#[export] Hint Rewrite raise_panic_h_reached : hp.
+Lemma raise_panic_h_qb (s : hstate) : h_qb (raise_panic s) = h_qb s.
+Proof. reflexivity. Qed.
+#[export] Hint Rewrite raise_panic_h_qb : hp.
+Lemma raise_panic_h_qp (s : hstate) : h_qp (raise_panic s) = h_qp s.
+Proof. reflexivity. Qed.
+#[export] Hint Rewrite raise_panic_h_qp : hp.
+Lemma raise_panic_h_hashes (s : hstate) : h_hashes (raise_panic s) = h_hashes s.
+Proof. reflexivity. Qed.
+#[export] Hint Rewrite raise_panic_h_hashes : hp.
+Lemma raise_panic_h_err (s : hstate) : h_err (raise_panic s) = h_err s.
+Proof. reflexivity. Qed.
+#[export] Hint Rewrite raise_panic_h_err : hp.
+Lemma raise_panic_h_res (s : hstate) : h_res (raise_panic s) = h_res s.
+Proof. reflexivity. Qed.
+#[export] Hint Rewrite raise_panic_h_res : hp.
+Lemma raise_panic_h_out (s : hstate) : h_out (raise_panic s) = h_out s.
+Proof. reflexivity. Qed.
+#[export] Hint Rewrite raise_panic_h_out : hp.
+Lemma raise_panic_h_pending (s : hstate) : h_pending (raise_panic s) = h_pending s.
+Proof. reflexivity. Qed.
+#[export] Hint Rewrite raise_panic_h_pending : hp.
+Lemma raise_panic_h_closes (s : hstate) : h_closes (raise_panic s) = h_closes s.
+Proof. reflexivity. Qed.
+#[export] Hint Rewrite raise_panic_h_closes : hp.
+
 (* ================================================================== *)
 (* 1. Queues, views, hashes                                            *)
 (* ================================================================== *)
@@ -590,6 +636,7 @@ Section Fin2.
       let s1 := hash_upd view_hash s in
       if negb (all_in s) then s1
       else if negb (check_broadcast_hash s1) then abort s1 (Some ([], EBroadcastHash))
+      else if fin_panics s1 then raise_panic s1
       else let r := h_cur s1 in
            let bv := match hget (h_hashes s1) r with Some d => d | None => 0%N end in
            let s2 := emit_all own_fp s1 (round_outputs s1 r bv) in
@@ -601,13 +648,15 @@ Section Fin2.
                    if nr =? 0 then abort (set_res s3) None
                    else match first_bad s3 nr with
                         | Some (_, VHash) => abort s3 (Some ([], EBroadcastHash))
+                        | Some (_, VPanic) => raise_panic s3
                         | Some (j, _) => abort s3 (Some ([j], EVerify))
                         | None => finalize view_hash own_fp f s3 end
            | _ => s2 end
     | _ => s end.
   Proof. cbn [finalize]. rewrite received_all_eq. reflexivity. Qed.
 
-  Lemma accept_eq s m : accept view_hash own_fp s m =
+  (* the body of Accept (everything but the deferred recover) *)
+  Lemma accept_body_eq s m : accept_body view_hash own_fp s m =
     match h_rt s with
     | Running =>
         if negb (can_accept s m) || (match h_err s with Some _ => true | None => false end)
@@ -620,10 +669,29 @@ Section Fin2.
                | VOk => finalize view_hash own_fp (fuel_of s1) s1
                | VBad => abort s1 (Some ([m_from m], EVerify))
                | VHash => abort s1 (Some ([], EBroadcastHash))
+               | VPanic => raise_panic s1
                end
     | _ => s
     end.
   Proof. reflexivity. Qed.
+
+  (* Accept = body under the deferred recover.  [accept_lift]: a property that is insensitive to the runtime
+     flag and preserved by abort carries over from the body to Accept. *)
+  Lemma accept_eq s m : accept view_hash own_fp s m =
+    match h_rt s with
+    | Running => recover_abort (accept_body view_hash own_fp s m)
+    | _ => s
+    end.
+  Proof. reflexivity. Qed.
+
+  Lemma accept_lift (P : hstate -> Prop) s m :
+    (forall x rt, P x -> P (set_rt x rt)) -> (forall x, P x -> P (abort x (Some ([], EPanic)))) ->
+    P s -> P (accept_body view_hash own_fp s m) -> P (accept view_hash own_fp s m).
+  Proof.
+    intros Hrt Hab Hs Hb. rewrite accept_eq. destruct (h_rt s); auto.
+    unfold recover_abort. destruct (h_rt (accept_body view_hash own_fp s m)); auto. cbv zeta.
+    destruct (terminal _); auto.
+  Qed.
   Lemma store_own_h_qp s o : h_qp (store s (own_bcast_msg own_fp s o)) = h_qp s.
   Proof.
     destruct (store_cases s (own_bcast_msg own_fp s o)) as [E|[(?&?&?&?&E)|(Hb&_)]]; try (rewrite E; reflexivity).
@@ -817,6 +885,19 @@ Section Ext.
     destruct (abort_out s e) as [->| ->]; eauto. exists []. now rewrite app_nil_r.
   Qed.
 
+  Lemma ext_set_rt P s rt : ext P s (set_rt s rt).
+  Proof. apply ext_simple; autorewrite with hp; auto. exists []. now rewrite app_nil_r. Qed.
+
+  Lemma ext_raise P s : ext P s (raise_panic s).
+  Proof. apply ext_set_rt. Qed.
+
+  Lemma ext_recover P s : stable P -> ext P s (recover_abort s).
+  Proof.
+    intros St. unfold recover_abort. destruct (h_rt s); try apply ext_refl. cbv zeta.
+    destruct (terminal _); [apply ext_set_rt|].
+    eapply ext_trans; [exact St|apply ext_set_rt|apply ext_abort].
+  Qed.
+
   Lemma ext_emit P s o : ext P s (emit s o).
   Proof.
     apply ext_simple; autorewrite with hp; auto.
@@ -932,7 +1013,7 @@ Section Ext.
               check_broadcast_hash (fs1 s) = true -> h_rt (fs2 s) = Running ->
               h_cur s < sh_final (h_shape s) ->
               existsb (Nat.eqb (S (h_cur s))) (h_reached s) = false ->
-              first_bad (fs3 s) (S (h_cur s)) = Some (j, v) -> v <> VHash ->
+              first_bad (fs3 s) (S (h_cur s)) = Some (j, v) -> v <> VHash -> v <> VPanic ->
               fcase f s (abort (fs3 s) (Some ([j], EVerify)))
   | FC_badhash : forall j, h_rt s = Running -> h_cur s <> 0 -> all_in s = true ->
               check_broadcast_hash (fs1 s) = true -> h_rt (fs2 s) = Running ->
@@ -945,7 +1026,17 @@ Section Ext.
               h_cur s < sh_final (h_shape s) ->
               existsb (Nat.eqb (S (h_cur s))) (h_reached s) = false ->
               first_bad (fs3 s) (S (h_cur s)) = None ->
-              fcase f s (finalize view_hash own_fp f (fs3 s)).
+              fcase f s (finalize view_hash own_fp f (fs3 s))
+  (* the round code panics: in Finalize of the current round / on a queued message of the next round *)
+  | FC_finpanic : h_rt s = Running -> h_cur s <> 0 -> all_in s = true ->
+              check_broadcast_hash (fs1 s) = true -> fin_panics (fs1 s) = true ->
+              fcase f s (raise_panic (fs1 s))
+  | FC_badpanic : forall j, h_rt s = Running -> h_cur s <> 0 -> all_in s = true ->
+              check_broadcast_hash (fs1 s) = true -> h_rt (fs2 s) = Running ->
+              h_cur s < sh_final (h_shape s) ->
+              existsb (Nat.eqb (S (h_cur s))) (h_reached s) = false ->
+              first_bad (fs3 s) (S (h_cur s)) = Some (j, VPanic) ->
+              fcase f s (raise_panic (fs3 s)).
 
   Lemma finalize_cases f s : fcase f s (finalize view_hash own_fp (S f) s).
   Proof.
@@ -956,6 +1047,7 @@ Section Ext.
     destruct (all_in s) eqn:Hall; cbn [negb]; [|now apply FC_wait].
     fold (fs1 s). replace (h_cur (fs1 s)) with (h_cur s) by (unfold fs1; now autorewrite with hp).
     destruct (check_broadcast_hash (fs1 s)) eqn:Hck; cbn [negb]; [|now apply FC_hash].
+    destruct (fin_panics (fs1 s)) eqn:Hfp; [now apply FC_finpanic|].
     fold (fbv s). fold (fs2 s).
     assert (Hsh : h_shape (fs2 s) = h_shape s) by (unfold fs2, fs1; now autorewrite with hp).
     assert (Hre : h_reached (fs2 s) = h_reached s) by (unfold fs2, fs1; now autorewrite with hp).
@@ -971,7 +1063,8 @@ Section Ext.
       apply Nat.leb_gt in Hf.
       cbn [Nat.eqb]. fold (fs3 s).
       destruct (first_bad (fs3 s) (S (h_cur s))) as [[j v]|] eqn:Hfb; [|now apply FC_next].
-      destruct v; [eapply FC_bad; eauto; discriminate|eapply FC_bad; eauto; discriminate|now eapply FC_badhash; eauto].
+      destruct v; [eapply FC_bad; eauto; discriminate|eapply FC_bad; eauto; discriminate|now eapply FC_badhash; eauto
+                  |now eapply FC_badpanic; eauto].
   Qed.
 
   Lemma fs1_cur s : h_cur (fs1 s) = h_cur s.
@@ -1007,6 +1100,10 @@ Section Ext.
     - eapply ext_trans; [apply own_entry_stable|exact H12|].
       eapply ext_trans; [apply own_entry_stable|apply ext_advance|apply IH].
       unfold fs2, fs1. autorewrite with hp. lia.
+    - eapply ext_trans; [apply own_entry_stable|apply ext_fs1|apply ext_raise].
+    - eapply ext_trans; [apply own_entry_stable|exact H12|].
+      eapply ext_trans; [apply own_entry_stable|apply ext_advance|apply ext_raise].
+      unfold fs2, fs1. autorewrite with hp. lia.
   Qed.
 End Ext.
 
@@ -1037,9 +1134,9 @@ Section Acc.
     - destruct (h_res s) eqn:E; [left; congruence|right; split; [auto|lia]].
   Qed.
 
-  Lemma ext_accept s m : ext (acc_entry m) s (accept view_hash own_fp s m).
+  Lemma ext_accept_body s m : ext (acc_entry m) s (accept_body view_hash own_fp s m).
   Proof.
-    rewrite accept_eq. destruct (h_rt s); try apply ext_refl.
+    rewrite accept_body_eq. destruct (h_rt s); try apply ext_refl.
     destruct (_ || _); [apply ext_refl|].
     destruct (m_round m =? 0); [apply ext_abort|]. cbv zeta.
     destruct (negb _); [apply ext_store|].
@@ -1048,6 +1145,13 @@ Section Acc.
       eapply ext_weaken; [|apply ext_finalize]. intros e He. now left.
     - eapply ext_trans; [apply acc_entry_stable|apply ext_store|apply ext_abort].
     - eapply ext_trans; [apply acc_entry_stable|apply ext_store|apply ext_abort].
+    - eapply ext_trans; [apply acc_entry_stable|apply ext_store|apply ext_raise].
+  Qed.
+
+  Lemma ext_accept s m : ext (acc_entry m) s (accept view_hash own_fp s m).
+  Proof.
+    rewrite accept_eq. destruct (h_rt s); try apply ext_refl.
+    eapply ext_trans; [apply acc_entry_stable|apply ext_accept_body|apply ext_recover, acc_entry_stable].
   Qed.
 End Acc.
 
@@ -1197,6 +1301,14 @@ Section Wf.
     - eapply (hwf_frame s _ [_]); autorewrite with hp; auto. exact E.
       intros o [<-|[]]. split; [intros r Hr; discriminate Hr|intros Hr; now elim Hr].
   Qed.
+
+  Lemma hwf_set_rt s rt : hwf s -> hwf (set_rt s rt).
+  Proof.
+    intros W. eapply (hwf_frame s _ []); autorewrite with hp; auto. now rewrite app_nil_r. intros o [].
+  Qed.
+
+  Lemma hwf_raise s : hwf s -> hwf (raise_panic s).
+  Proof. apply hwf_set_rt. Qed.
 
   Lemma hwf_emit s o : hwf s -> out_bv s o -> out_conf s o -> hwf (emit s o).
   Proof.
@@ -1441,6 +1553,13 @@ Section Wf2.
       + now apply hwf_res_false.
       + now apply fs2_checked.
       + intros Hr. now apply fs2_complete.
+    - apply hwf_raise. now apply hwf_hash_upd.
+    - apply hwf_raise. unfold SystemProofs.fs3. rewrite <- (fs2_cur s).
+      assert (W2 := hwf_fs2 s W H0 H1).
+      apply hwf_advance; auto; rewrite ?fs2_res, ?fs2_cur, ?fs2_shape.
+      + now apply hwf_res_false.
+      + now apply fs2_checked.
+      + intros Hr. now apply fs2_complete.
   Qed.
 
   Lemma can_accept_not_stale s m :
@@ -1452,9 +1571,9 @@ Section Wf2.
     - apply Nat.ltb_ge in H. lia.
   Qed.
 
-  Lemma hwf_accept s m : hwf s -> hwf (accept view_hash own_fp s m).
+  Lemma hwf_accept_body s m : hwf s -> hwf (accept_body view_hash own_fp s m).
   Proof.
-    intros W. rewrite accept_eq. destruct (h_rt s); auto.
+    intros W. rewrite accept_body_eq. destruct (h_rt s); auto.
     destruct (negb (can_accept s m) || _ || h_res s || duplicate s m) eqn:Hg; auto.
     apply orb_false_iff in Hg as [Hg _]. apply orb_false_iff in Hg as [Hg Hres].
     apply orb_false_iff in Hg as [Hca _]. apply negb_false_iff in Hca.
@@ -1463,7 +1582,13 @@ Section Wf2.
     { apply hwf_store; auto. pose proof (can_accept_not_stale s m Hca Hr0).
       unfold passed. intros [_ [H'|H']]; [lia|congruence]. }
     destruct (negb _); auto.
-    destruct (if m_bcast m then _ else _); [now apply hwf_finalize|now apply hwf_abort|now apply hwf_abort].
+    destruct (if m_bcast m then _ else _);
+      [now apply hwf_finalize|now apply hwf_abort|now apply hwf_abort|now apply hwf_raise].
+  Qed.
+
+  Lemma hwf_accept s m : hwf s -> hwf (accept view_hash own_fp s m).
+  Proof.
+    intros W. apply accept_lift; auto using hwf_set_rt, hwf_abort, hwf_accept_body.
   Qed.
 
   Lemma hwf_init self n ssid proto sh : hwf (init_state self n ssid proto sh).
@@ -1523,7 +1648,7 @@ Section Blame.
     destruct (negb _); [discriminate|]. destruct (_ && _); [discriminate|].
     destruct (same_view s p) eqn:Hsv; cbn [negb]; [|discriminate].
     destruct Hv as [Hv|Hv]; [|discriminate]. rewrite Hv.
-    specialize (Hp Hb). destruct (sh_p2p (h_shape s) (m_round p)); discriminate.
+    specialize (Hp Hb). destruct (sh_p2p (h_shape s) (m_round p)); destruct (panics_verify p); discriminate.
   Qed.
 
   Lemma verify_bcast_good s x :
@@ -1533,6 +1658,7 @@ Section Blame.
     destruct (negb (existsb _ _)); [discriminate|].
     destruct (same_view s x) eqn:Hsv; cbn [negb]; [|discriminate].
     destruct Hv as [Hv|Hv]; [|discriminate]. rewrite (Hbc Hb), Hv. cbn [negb].
+    destruct (panics_verify x); [discriminate|].
     destruct (sh_p2p (h_shape s) (m_round x)) eqn:Hp; try discriminate;
       destruct (qget (h_qp s) (m_round x) (m_from x)) eqn:Hq; try discriminate;
       apply qget_In in Hq; pose proof (w_qp _ _ W _ _ _ Hq) as (_ & Hf & Hbp & _);
@@ -1540,9 +1666,9 @@ Section Blame.
   Qed.
 
   Lemma first_bad_E s r j v :
-    hwf s -> egood s -> first_bad s r = Some (j, v) -> v <> VHash -> j = E.
+    hwf s -> egood s -> first_bad s r = Some (j, v) -> v <> VHash -> v <> VPanic -> j = E.
   Proof.
-    intros W G H Hv. destruct (Nat.eq_dec j E) as [|Hne]; auto. exfalso.
+    intros W G H Hv Hvp. destruct (Nat.eq_dec j E) as [|Hne]; auto. exfalso.
     unfold first_bad in H.
     destruct (find _ (others s)) as [j'|] eqn:Hf; [|discriminate]. inversion H; subst j' v. clear H.
     apply find_some in Hf as [_ Hf]. apply negb_true_iff in Hf.
@@ -1551,12 +1677,12 @@ Section Blame.
       apply qget_In in Hq. pose proof (w_qb _ _ W _ _ _ Hq) as (_ & Hfr & Hb & _).
       assert (Hg : verify_bcast s m <> VBad).
       { apply verify_bcast_good; auto; try congruence. eapply G; eauto. congruence. }
-      destruct (verify_bcast s m); [discriminate|congruence|congruence].
+      destruct (verify_bcast s m); [discriminate|congruence|congruence|congruence].
     - destruct (qget (h_qp s) r j) eqn:Hq; [|discriminate].
       apply qget_In in Hq. pose proof (w_qp _ _ W _ _ _ Hq) as (_ & Hfr & Hb & _).
       assert (Hg : verify_p2p s m <> VBad).
       { apply verify_p2p_good; auto. eapply G; eauto. congruence. }
-      destruct (verify_p2p s m); [discriminate|congruence|congruence].
+      destruct (verify_p2p s m); [discriminate|congruence|congruence|congruence].
   Qed.
 
   Lemma own_entry_good s e : own_entry own_fp s e -> good s (snd e).
@@ -1629,9 +1755,11 @@ Section Blame.
     - apply einv_abort_none. eapply einv_same; [|exact I]. cbn. apply fs_err.
     - assert (W3 := hwf_fs3 s W H0 H1 H2).
       apply einv_abort; auto; [|discriminate].
-      intros _. rewrite (first_bad_E _ _ _ _ W3 (G3 H4) H6 H7). apply incl_refl.
+      intros _. rewrite (first_bad_E _ _ _ _ W3 (G3 H4) H6 H7 H8). apply incl_refl.
     - apply einv_abort; auto. discriminate.
     - assert (W3 := hwf_fs3 s W H0 H1 H2). apply IH; auto.
+    - eapply einv_same; [|exact I]. cbn. apply fs_err.
+    - eapply einv_same; [|exact I3]. reflexivity.
   Qed.
 
   Lemma egood_store s m : egood s -> (m_from m <> E -> good s m) -> egood (store s m).
@@ -1648,11 +1776,11 @@ Section Blame.
 
   (* one Accept: stored messages from parties other than E stay good, EVerify names only E,
      EBroadcastHash names nobody *)
-  Lemma blame_accept s m :
+  Lemma blame_accept_body s m :
     hwf s -> egood s -> einv s -> (m_round m <> 0 -> m_from m <> E -> good s m) ->
-    egood (accept view_hash own_fp s m) /\ einv (accept view_hash own_fp s m).
+    egood (accept_body view_hash own_fp s m) /\ einv (accept_body view_hash own_fp s m).
   Proof.
-    intros W G I Hm. rewrite accept_eq. destruct (h_rt s); auto.
+    intros W G I Hm. rewrite accept_body_eq. destruct (h_rt s); auto.
     destruct (negb (can_accept s m) || _ || h_res s || duplicate s m) eqn:Hg; auto.
     apply orb_false_iff in Hg as [Hg _]. apply orb_false_iff in Hg as [Hg Hres].
     apply orb_false_iff in Hg as [Hca _]. apply negb_false_iff in Hca.
@@ -1680,6 +1808,22 @@ Section Blame.
       + now apply (verify_bcast_good (store s m) m W1 G1 Gm Hb Hne).
       + now apply (verify_p2p_good (store s m) m Gm Hb).
     - split; [apply GA|]. apply einv_abort; auto. discriminate.
+    - split; [eapply egood_same; [| | | |exact G1]; now autorewrite with hp|].
+      eapply einv_same; [|exact I1]. now autorewrite with hp.
+  Qed.
+
+  (* the deferred recover names nobody *)
+  Lemma blame_accept s m :
+    hwf s -> egood s -> einv s -> (m_round m <> 0 -> m_from m <> E -> good s m) ->
+    egood (accept view_hash own_fp s m) /\ einv (accept view_hash own_fp s m).
+  Proof.
+    intros W G I Hm.
+    apply (accept_lift view_hash own_fp (fun x => egood x /\ einv x));
+      [| |split; assumption|apply blame_accept_body; assumption].
+    - intros x rt [Gx Ix]. split; [eapply egood_same; [| | | |exact Gx]; now autorewrite with hp|].
+      eapply einv_same; [|exact Ix]. now autorewrite with hp.
+    - intros x [Gx Ix]. split; [eapply egood_same; [| | | |exact Gx]; now autorewrite with hp|].
+      apply einv_abort; auto; discriminate.
   Qed.
 End Blame.
 
@@ -1722,7 +1866,7 @@ Section SysAdv.
 
   Definition mk_msg (j : party) (o : outmsg) : msg :=
     mkMsg ssid proto j (o_to o) (o_round o) true (o_bcast o) (o_bv o)
-          (fp j (o_bcast o) (o_to o) (o_round o)) true.
+          (fp j (o_bcast o) (o_to o) (o_round o)) true NoPanic.
 
   Lemma msg_of_out_static j s o : static_ok j s -> msg_of_out fp s o = mk_msg j o.
   Proof. intros (H1 & _ & H3 & H4 & _). unfold msg_of_out, mk_msg. now rewrite H1, H3, H4. Qed.
@@ -2207,7 +2351,8 @@ Section Ideal.
     m_round x = r /\ m_from x = j /\ m_bcast x = bc /\ m_bv x = ibv (r - 1) /\ m_valid x = true
     /\ 2 <= r <= final /\ j < n
     /\ (bc = true -> m_fp x = fp j true None r /\ sh_bcast sh r = true)
-    /\ (bc = false -> p2p_some (sh_p2p sh r) = true).
+    /\ (bc = false -> p2p_some (sh_p2p sh r) = true)
+    /\ m_panic x = NoPanic.
 
   Definition rk (s : hstate) : nat := if h_res s then S final else h_cur s.
 
@@ -2320,8 +2465,8 @@ Section Ideal.
   Proof.
     intros C Hp. pose proof (same_view_ideal s _ _ _ _ C Hp) as Hsv.
     destruct (c_static _ C) as (_ & _ & _ & _ & S5).
-    destruct Hp as (Hr&_&_&_&Hv&_&_&_&Hpp). unfold verify_p2p.
-    destruct (negb _); auto. destruct (_ && _); auto. rewrite Hsv, Hv, S5, Hr. cbn [negb].
+    destruct Hp as (Hr&_&_&_&Hv&_&_&_&Hpp&Hpn). unfold verify_p2p, panics_verify.
+    destruct (negb _); auto. destruct (_ && _); auto. rewrite Hsv, Hv, S5, Hr, Hpn. cbn [negb].
     specialize (Hpp eq_refl). destruct (sh_p2p sh r); [discriminate|auto|auto].
   Qed.
 
@@ -2329,8 +2474,8 @@ Section Ideal.
   Proof.
     intros C Hx. pose proof (same_view_ideal s _ _ _ _ C Hx) as Hsv.
     destruct (c_static _ C) as (_ & _ & _ & _ & S5).
-    destruct Hx as (Hr&Hf&_&_&Hv&_&_&Hb&_). destruct (Hb eq_refl) as [_ Hbc]. unfold verify_bcast.
-    destruct (negb (existsb _ _)); auto. rewrite Hsv, Hv, S5, Hr, Hbc. cbn [negb].
+    destruct Hx as (Hr&Hf&_&_&Hv&_&_&Hb&_&Hpn). destruct (Hb eq_refl) as [_ Hbc]. unfold verify_bcast, panics_verify.
+    destruct (negb (existsb _ _)); auto. rewrite Hsv, Hv, S5, Hr, Hbc, Hpn. cbn [negb].
     destruct (sh_p2p sh r); auto;
       destruct (qget (h_qp s) r (m_from x)) eqn:Hq; auto;
       apply qget_In in Hq; apply (c_qp _ C) in Hq; eapply verify_p2p_ideal; eauto.
@@ -2346,6 +2491,21 @@ Section Ideal.
       apply (c_qb _ C) in Hq. rewrite (verify_bcast_ideal s _ _ _ C Hq) in Hf. discriminate.
     - destruct (qget (h_qp s) r j) eqn:Hq; [|discriminate]. apply qget_In in Hq.
       apply (c_qp _ C) in Hq. rewrite (verify_p2p_ideal s _ _ _ C Hq) in Hf. discriminate.
+  Qed.
+
+  (* no stored message makes the round code panic *)
+  Lemma fin_panics_ideal s : HC s -> fin_panics s = false.
+  Proof.
+    intros C.
+    assert (G : forall bc (q : list qentry) c,
+              (forall r j x, In (r, j, x) q -> ideal_entry bc r j x) ->
+              existsb (fun e => match e with (r', _, m) => (r' =? c) && panics_finalize m end) q = false).
+    { intros bc q c Hq. induction q as [|[[r' j'] m'] q IH]; [reflexivity|]. cbn [existsb].
+      rewrite IH by (intros r0 j0 x0 Hin; apply Hq; now right).
+      destruct (Hq r' j' m' (or_introl eq_refl)) as (_&_&_&_&_&_&_&_&_&Hpn).
+      unfold panics_finalize. rewrite Hpn. now rewrite andb_false_r. }
+    unfold fin_panics. cbv zeta.
+    rewrite (G true _ _ (c_qb _ C)), (G false _ _ (c_qp _ C)), !andb_false_r. reflexivity.
   Qed.
 
   Lemma pick_other : exists j, j < n /\ j <> i.
@@ -2614,7 +2774,7 @@ Section Ideal.
       split; auto. destruct (h_cur s - c0) as [|[|k]] eqn:Ek; lia. }
     assert (X12 : ext (own_entry ofp) s (fs2 s)).
     { eapply ext_trans; [apply own_entry_stable|apply ext_fs1|apply ext_fs2]. }
-    destruct (finalize_cases view_hash ofp f s) as [H|H1 H2 H3|H1 H2 H3 H4|H1 H2 H3 H4 H5|H1 H2 H3 H4 H5 H6 H7|j v H1 H2 H3 H4 H5 H6 H7 H8 H9|j H1 H2 H3 H4 H5 H6 H7 H8|H1 H2 H3 H4 H5 H6 H7 H8].
+    destruct (finalize_cases view_hash ofp f s) as [H|H1 H2 H3|H1 H2 H3 H4|H1 H2 H3 H4 H5|H1 H2 H3 H4 H5 H6 H7|j v H1 H2 H3 H4 H5 H6 H7 H8 H9 H10|j H1 H2 H3 H4 H5 H6 H7 H8|H1 H2 H3 H4 H5 H6 H7 H8|H1 H2 H3 H4 H5|j H1 H2 H3 H4 H5 H6 H7 H8].
     - exfalso. destruct H as [H|H]; [apply H, (c_rt _ C)|lia].
     - split; [exact C1|right]. now rewrite all_in_fs1.
     - exfalso. rewrite (check_ok _ C1) in H4. discriminate.
@@ -2646,6 +2806,11 @@ Section Ideal.
       + rewrite Hc3. replace (S (h_cur s) - c0) with (S (h_cur s - c0)) by lia.
         rewrite Nat.mul_succ_r. lia.
       + rewrite Hc3. lia.
+    - exfalso. rewrite (fin_panics_ideal _ C1) in H5. discriminate.
+    - exfalso. destruct (Hcap H3) as [Hle Hpn]. rewrite S5 in H6.
+      destruct (HC_fs3 s C Hr H3 Hpn H6) as [C3 _].
+      pose proof (hwf_fs3 view_hash ofp s W H2 H3 H4) as W3.
+      rewrite (first_bad_none _ _ W3 C3) in H8. discriminate.
   Qed.
 
   (* ---- accepting an ideal message ---- *)
@@ -2704,18 +2869,18 @@ Section Ideal.
     - eapply verify_p2p_ideal; eauto.
   Qed.
 
-  Lemma accept_ideal s m :
+  Lemma accept_body_ideal s m :
     hwf s -> HC s -> h_pending s = 0 -> (h_res s = true \/ all_in s = false) ->
     (h_res s = false -> bnd (h_cur s) s) ->
     ideal_msg m -> (h_res s = false -> m_round m <= S (h_cur s)) ->
-    let s' := accept view_hash ofp s m in
+    let s' := accept_body view_hash ofp s m in
     HC s' /\ (h_res s' = true \/ all_in s' = false)
     /\ (h_res s' = true \/ m_round m < h_cur s' \/ qget (queue_of s' m) (m_round m) (m_from m) <> None).
   Proof.
     intros W C Hp Hq B (M1 & M2 & M3 & M4 & M5 & Hm) Hrd. cbv zeta.
     destruct (c_static _ C) as (S1 & S2 & S3 & S4 & S5).
     pose proof Hm as (_&_&_&_&_&Hrng&Hj&_).
-    rewrite accept_eq, (c_rt _ C), (c_err _ C).
+    rewrite accept_body_eq, (c_rt _ C), (c_err _ C).
     destruct (h_res s) eqn:Hr.
     { rewrite !orb_true_r. cbn [orb]. split; [assumption|split; auto]. }
     destruct Hq as [Hq|Hq]; [discriminate|]. specialize (Hrd eq_refl). specialize (B eq_refl).
@@ -2764,6 +2929,20 @@ Section Ideal.
         rewrite (x_qb _ _ _ X _ _ _ Hg). discriminate.
       + destruct (qget (h_qp (store s m)) (m_round m) (m_from m)) eqn:Hg; [|congruence].
         rewrite (x_qp _ _ _ X _ _ _ Hg). discriminate.
+  Qed.
+
+  (* on ideal traffic the round code never panics: the deferred recover of Accept does nothing *)
+  Lemma accept_ideal s m :
+    hwf s -> HC s -> h_pending s = 0 -> (h_res s = true \/ all_in s = false) ->
+    (h_res s = false -> bnd (h_cur s) s) ->
+    ideal_msg m -> (h_res s = false -> m_round m <= S (h_cur s)) ->
+    let s' := accept view_hash ofp s m in
+    HC s' /\ (h_res s' = true \/ all_in s' = false)
+    /\ (h_res s' = true \/ m_round m < h_cur s' \/ qget (queue_of s' m) (m_round m) (m_from m) <> None).
+  Proof.
+    intros W C Hp Hq B Hm Hrd. cbv zeta.
+    pose proof (accept_body_ideal s m W C Hp Hq B Hm Hrd) as H. cbv zeta in H.
+    rewrite accept_eq, (c_rt _ C). unfold recover_abort. rewrite (c_rt _ (proj1 H)). exact H.
   Qed.
 
   Lemma HC_init : HC (init_state i n ssid proto sh).
@@ -3072,7 +3251,10 @@ Section AllHonest.
   Qed.
 
   Lemma accept_reject own_fp s m : can_accept s m = false -> accept view_hash own_fp s m = s.
-  Proof. intros H. rewrite accept_eq. destruct (h_rt s); auto. now rewrite H. Qed.
+  Proof.
+    intros H. rewrite accept_eq, accept_body_eq. destruct (h_rt s) eqn:Hr; auto. rewrite H. cbn [negb orb].
+    unfold recover_abort. now rewrite Hr.
+  Qed.
 
   Lemma AI_deliver_junk st to m :
     AI st -> to < n -> can_accept (s_h st to) (set_valid m (validity (s_h st to) m)) = false ->
@@ -3419,7 +3601,7 @@ Lemma wf_shape_examples :
   /\ wf_shapeb shape_bb3 = true.
 Proof. vm_compute. repeat split; reflexivity. Qed.
 (* E = party 2 sends this as its round-2 broadcast; two versions differ in the fingerprint (payload) *)
-Definition equiv_msg (fpv : N) : msg := mkMsg 7 9 2 None 2 true true 0 fpv true.
+Definition equiv_msg (fpv : N) : msg := mkMsg 7 9 2 None 2 true true 0 fpv true NoPanic.
 Definition equiv_sched : list sched_ev :=
   [Inject 0 (equiv_msg 111); Inject 1 (equiv_msg 222); Deliver 0 0; Deliver 1 0].
 
@@ -3479,7 +3661,7 @@ Proof. vm_compute. split; reflexivity. Qed.
 (* with the comparison done (validity not view dependent) the same equivocation ends without a culprit *)
 Definition blame_run_keep : sys :=
   run vh_pos fp_cantor keep_valid 3 (init_sys vh_pos fp_cantor 3 7 9 shape_bb3)
-      (equiv_sched ++ [Deliver 0 1; Deliver 1 1; Inject 0 (mkMsg 7 9 2 None 3 true true 5 333 true)]).
+      (equiv_sched ++ [Deliver 0 1; Deliver 1 1; Inject 0 (mkMsg 7 9 2 None 3 true true 5 333 true NoPanic)]).
 Lemma equivocation_without_view_dependence :
   h_err (s_h blame_run_keep 0) = Some ([], EBroadcastHash).
 Proof. vm_compute. reflexivity. Qed.
